@@ -227,8 +227,15 @@ class C05(Property):
             a = rng.randrange(6, 18)
             add(a, a + 2, rng.choice([0, 1, 6]), [])
             if rng.random() < 0.5:
+                # an unrelated protocluster in between: it sorts right after the origin-spanning one
+                c = rng.randrange(30, 60)
+                add(c, c + 2, rng.choice([0, 1]), [])
+            if rng.random() < 0.6:
                 b = rng.randrange(82, 93)
                 add(b, b + 2, rng.choice([0, 1, 6]), [])
+                if rng.random() < 0.5:      # … and a later one, so that the one above is not the last in sorted order
+                    b2 = min(96, b + rng.choice([1, 2, 3]))
+                    add(b2, b2 + 2, rng.choice([0, 1, 2]), [])
         elif kind == "nested-cands":
             # several two-member groups (shared gene or overlapping cores) with small cores and wide, nesting
             # extents: candidates that are not neighbours in sorted order can still be related
